@@ -1,5 +1,10 @@
-"""Generators, `yield`, `with` on @contextmanager functions (filled in with the dispatcher phase)."""
-from .state import Unsupported
+"""Generators, `yield`, `with` on @contextmanager functions."""
+import ast
+import z3
+
+from .vtypes import (RefS, StrS, NULL, Val, NONE, REG, sort_of, is_ref, is_opt, strip_opt, FALSE, TRUE, ty_str)
+from .state import (Frame, PathEnd, Unsupported, ReturnExc, BreakExc, ContinueExc, RaiseExc)
+from . import specs, calls
 
 
 def exec_yield(I, st, node):
@@ -10,9 +15,101 @@ def exec_with(I, st, node, is_async=False):
     raise Unsupported("with statement (line %s)" % getattr(node, "lineno", "?"))
 
 
-def exec_for_gen(I, st, node, payload):
-    raise Unsupported("for over a generator (line %s)" % getattr(node, "lineno", "?"))
-
-
 def exec_for_filter(I, st, node, payload):
-    raise Unsupported("for over filter() (line %s)" % getattr(node, "lineno", "?"))
+    _, fn, src = payload
+    if src.ty != "Gen":
+        raise Unsupported("for over filter() of a non-generator (line %s)" % node.lineno)
+    return exec_for_gen(I, st, node, src.term, filt=fn)
+
+
+def exec_for_gen(I, st, node, payload, filt=None):
+    """consumer side of a generator: the loop is cut at its invariant; the generator's contract says what an
+    yielded item looks like (`yields.facts`, over `item` and `SEEN`), what the generator itself may modify and what
+    holds at exhaustion (`ensures`, may mention SEEN = the set of items yielded)."""
+    from . import loops
+    gfi, gargs = payload
+    gc = I.db.get(gfi.qualname)
+    if gc is None or not gc.yields:
+        raise Unsupported("generator %s has no `yields` contract" % gfi.qualname)
+    k, ls = loops.loop_spec(I, st, node)
+    genv = dict(gargs)
+    site = "%s.loop[%d].gen[%s]" % (I.short(st.frame.func), k, gfi.name)
+    for cl in gc.requires:
+        g = specs.eval_clause(I, st, cl, genv, gfi)
+        st.oblige("%s.pre[%s]" % (site, cl.label), g, meta={"kind": "call_pre", "clause": cl.text})
+    entry_heap = dict(st.heap)
+    entry_alloc = st.alloc
+    entry_env = dict(loops.spec_env(I, st, {}))
+    names = loops.assigned_names(node.body) | {n.id for n in ast.walk(node.target) if isinstance(n, ast.Name)}
+    ity = REG.parse(calls.subst_params(gc.yields["type"], gargs.get("self")))
+    setty = ("MSet", ity)
+    empty = z3.K(sort_of(ity), FALSE)
+
+    def mk_env(extra):
+        return loops.add_entry(loops.spec_env(I, st, extra), entry_env, entry_heap, st)
+
+    def gen_havoc():
+        loops.havoc(I, st, ls, entry_env, names)
+        locs = calls.modifies_locations(I, st, gc, genv, gc.modifies)
+        calls.havoc_locations(I, st, locs)
+
+    loops.check_inv(I, st, ls, k, mk_env({"SEEN": Val(setty, empty)}), "entry")
+    b = st.choose(2, "iterate-or-exit")
+    saved_old = (st.old_heap, st.old_alloc)
+    if b == 0:
+        gen_havoc()
+        seen = st.fresh(z3.ArraySort(sort_of(ity), z3.BoolSort()), "seen")
+        loops.assume_inv(I, st, ls, mk_env({"SEEN": Val(setty, seen)}))
+        item = st.fresh_val(ity, "item")
+        st.assume(z3.Not(z3.Select(seen, item.term)))
+        fenv = dict(genv)
+        fenv.update(item=item, SEEN=Val(setty, seen))
+        st.old_heap, st.old_alloc = entry_heap, entry_alloc
+        try:
+            for cl in gc.yields.get("facts", []):
+                st.assume(specs.eval_clause(I, st, specs_clause(cl), fenv, gfi))
+        finally:
+            st.old_heap, st.old_alloc = saved_old
+        if filt is not None:
+            st.spec_depth += 1
+            try:
+                t = I.truthy(st, calls.call_value(I, st, filt, [item], {}, node))
+            finally:
+                st.spec_depth -= 1
+            st.assume(t)
+        if not st.feasible():
+            raise PathEnd("no item")
+        I.assign(st, node.target, item)
+        try:
+            I.exec_block(st, node.body)
+        except ContinueExc:
+            pass
+        except BreakExc:
+            return
+        seen2 = z3.Store(seen, item.term, True)
+        loops.check_inv(I, st, ls, k, mk_env({"SEEN": Val(setty, seen2)}), "preserved")
+        raise PathEnd("loop iteration done")
+    gen_havoc()
+    seen = st.fresh(z3.ArraySort(sort_of(ity), z3.BoolSort()), "seen_all")
+    loops.assume_inv(I, st, ls, mk_env({"SEEN": Val(setty, seen)}))
+    fenv = dict(genv)
+    fenv.update(SEEN=Val(setty, seen))
+    st.old_heap, st.old_alloc = entry_heap, entry_alloc
+    try:
+        for cl in gc.ensures:
+            st.assume(specs.eval_clause(I, st, cl, fenv, gfi))
+    finally:
+        st.old_heap, st.old_alloc = saved_old
+    if filt is not None:
+        st.ghost["$filter_of_last_gen"] = filt
+    st.locals["SEEN_" + str(k)] = Val(setty, seen)
+    I.exec_block(st, node.orelse)
+
+
+def specs_clause(cl):
+    from .contracts import Clause
+    if isinstance(cl, Clause):
+        return cl
+    if isinstance(cl, str):
+        return Clause("fact", cl)
+    return Clause(cl[0], cl[1])
